@@ -460,6 +460,8 @@ class Enc:
     widths, offset origins, unreachable regions, option encodings and NumPy strides at random.
     style: 'canonical' (ListOffsetArray64 from 0, IndexedOptionArray64, contiguous NumpyArray) or 'random'"""
 
+    ALLOW_BITMASK = True      # class-wide switch (Engine N turns it off for one family)
+
     def __init__(self, rng, style="random", allow_indexed=True, allow_ndnumpy=True):
         self.rng, self.style = rng, style
         self.allow_indexed = allow_indexed
@@ -577,7 +579,7 @@ class Enc:
                         index.append(j)
                         j += 1
                 return IO("64", index, self.encode(present, T[1], under_option=True))
-            modes = ["io", "io", "bm", "bt"]
+            modes = ["io", "io", "bm", "bt"] if Enc.ALLOW_BITMASK else ["io", "io", "bm"]
             if all(v is not None for v in values):
                 modes.append("um")
             mode = rng.choice(modes)
